@@ -1,5 +1,5 @@
 """C02 — emu-mps TDVP dynamics (structural clauses)."""
-from ..rules import drivers, perm, step, tdvp
+from ..rules import pure, drivers, perm, step, tdvp
 
 META = {
     "title": "emu-mps TDVP runs reproduce the Pulser Hamiltonian dynamics",
@@ -46,3 +46,4 @@ def check(ctx):
     drivers.progress_dispatch(ctx)
     drivers.init_sequence(ctx)
     drivers.sweep_boundaries(ctx)
+    pure.check(ctx, [], ["emu_mps.optimatrix.optimiser", "emu_mps.optimatrix.permutations"])
